@@ -10,8 +10,11 @@ require (
 )
 
 require (
+	github.com/armon/go-radix v1.0.0 // indirect
+	github.com/evolbioinfo/goalign v0.3.7-0.20230906113011-fcecb09f9d43 // indirect
 	github.com/fredericlemoine/bitset v1.2.0 // indirect
 	github.com/fredericlemoine/gostats v0.1.1 // indirect
+	github.com/jlaffaye/ftp v0.0.0-20210307004419-5d4190119067 // indirect
 )
 
 replace github.com/evolbioinfo/gotree => /repo
